@@ -396,7 +396,8 @@ static void do_load (int step, std::vector<std::string> &a, bool clone) {
   object_t *ob;
   begin_evaluation ();
   if (clone) ob = clone_object (a[1].c_str (), 0);
-  else ob = load_object (a[1].c_str (), a.size () > 2 ? a[2].c_str () : 0);
+  else if (a.size () > 2) ob = load_object (a[1].c_str (), a[2].c_str ());
+  else ob = find_or_load_object (a[1].c_str ());   // every real caller looks the name up first: load_object() itself never checks for an existing object
   pop_context (&econ);
   if (!ob) { rec_begin (step, "null"); rec_kv_int ("nerr", num_parse_error); rec_end (); return; }
   rec_begin (step, "ok"); rec_kv_str ("name", ob->name); rec_end ();
